@@ -76,10 +76,27 @@ class Session:
     LOAD_FIDELITY = {'C04': 'carried content', 'C14': 'serialisation', 'C17': 'story text', 'C18': 'source',
                      'C20': 'exposed IDs and content'}
 
+    @staticmethod
+    def _parses(text):
+        from xml.etree import ElementTree as ET
+        try:
+            ET.fromstring(text)
+            return True
+        except Exception:
+            return False
+
     def load(self, text):
         EV.STATE['quiet'] = EV.STATE.get('quiet', 0) + 1
         try:
             mo = self.mt.MosFile.from_string(text)
+        except Exception as e:
+            if self.prop in self.LOAD_FIDELITY and type(e).__name__ == 'MosInvalidXML' and self._parses(text):
+                # the library calls a document invalid XML that the XML parser reads: nothing it carries can arrive
+                self.custom_violation('well-formed-document-refused-as-invalid-xml',
+                                      {'concerns': self.LOAD_FIDELITY[self.prop], 'msg': str(e)[:200]},
+                                      {'type': 'load', 'doc': text if isinstance(text, str) else text.decode('latin-1')},
+                                      msg_kind='load', status='load')
+            raise
         finally:
             EV.STATE['quiet'] -= 1
         if self.prop in self.LOAD_FIDELITY:
